@@ -135,11 +135,33 @@ def check_builder(W, rec, rng):
     rec.nontrivial(("b", path, tuple(q.items(multi=True)), base))
     case = {"family": "builder", "path": path, "query": list(q.items(multi=True)), "base_url": base}
     with rec.guard(case, "C15"):
-        b = EnvironBuilder(path=path, base_url=base, query_string=q)
+        b = EnvironBuilder(path=path, base_url=base, query_string=MultiDict(q))
         try:
             r = b.get_request(Request)
+            # history: the builder is used again after its query mapping was edited in place; the second request is
+            # that of the builder's present state
+            exp2 = list(b.args.items(multi=True)) + [("added", "é 2")]
+            b.args.add("added", "é 2")
+            r2 = b.get_request(Request)
+            rec.observe("builder_reused_after_edit")
+            if list(r2.args.items(multi=True)) != exp2 or r2.path != r.path:
+                rec.violation("C15/builder-reused-args-not-recovered", f"second request of the same builder: args {list(r2.args.items(multi=True))!r}, the builder holds {exp2!r}", case, monitor="identity")
+                return
         finally:
             b.close()
+        if "%" not in path and "%" not in root:
+            # history: a second builder made from the first request's environ (test client following a redirect,
+            # copying a request) describes the same request
+            b3 = EnvironBuilder.from_environ(r.environ)
+            try:
+                r3 = b3.get_request(Request)
+            finally:
+                b3.close()
+            rec.observe("builder_from_environ_copies")
+            for attr in ("path", "root_path", "url", "base_url", "host", "query_string"):
+                if getattr(r3, attr) != getattr(r, attr):
+                    rec.violation("C15/from_environ-copy-differs", f"Request.{attr}: copy {getattr(r3, attr)!r}, original {getattr(r, attr)!r}", case, monitor="identity")
+                    return
         if r.path != unquote(path):
             rec.violation("C15/builder-path-not-recovered", f"{path!r} -> Request.path {r.path!r}", case, monitor="identity")
             return
